@@ -218,6 +218,63 @@ Theorem C15_safety_okb_reachable : forall c0 c1, (c0 <> [] \/ c1 <> []) ->
 Proof. exact safety_okb_reachable. Qed.
 Print Assumptions C15_safety_okb_reachable.
 
+(* CONTIGUITY.  Every MsgApp a node may put on the wire (the emission rule emit_okb of [xstep],
+   decided by the trace validator on every message of the implementation) carries a CONTIGUOUS slice
+   of the sender's log: exactly the entries at indexes prevIndex+1 .. prevIndex+length, no hole, no
+   reordering; a size limit (MaxSizePerMsg) may only shorten it to a prefix of the available
+   suffix, which is again such a slice. *)
+Theorem C15_msgapp_is_contiguous_log_slice : forall id n m,
+  emit_okb id n m = true -> m_type m = MsgApp ->
+  m_ents m = firstn (length (m_ents m)) (skipn (m_index m) (n_log n)) /\
+  m_index m + length (m_ents m) <= length (n_log n) /\
+  firstn (m_index m) (n_log n) ++ m_ents m = firstn (m_index m + length (m_ents m)) (n_log n).
+Proof.
+  intros id n m H Hty. unfold emit_okb in H. rewrite Hty in H.
+  apply andb_true_iff in H as [_ H]. apply andb_true_iff in H as [H _]. apply andb_true_iff in H as [_ Hseg].
+  destruct (is_segment_spec _ _ _ Hseg) as [H1 H2]. split; [|split; assumption].
+  unfold is_segment in Hseg. apply andb_true_iff in Hseg as [Hs _]. apply log_eqb_eq in Hs. exact Hs.
+Qed.
+Print Assumptions C15_msgapp_is_contiguous_log_slice.
+
+(* ... and in every reachable state every MsgApp in flight, old or new, duplicated or delayed, is a
+   contiguous slice of the log of the leader of its term, starting right after its prevIndex *)
+Theorem C15_msgapp_in_flight_is_leader_log_slice : forall c0 c1, (c0 <> [] \/ c1 <> []) ->
+  forall x, xreachable c0 c1 x ->
+  exists s, (forall y, nodes s y = x_nodes x y) /\
+    forall m, In m (x_msgs x) -> m_type m = MsgApp ->
+      firstn (m_index m) (LL s (m_term m)) ++ m_ents m
+        = firstn (m_index m + length (m_ents m)) (LL s (m_term m)) /\
+      m_index m + length (m_ents m) <= length (LL s (m_term m)).
+Proof.
+  intros c0 c1 Hne x Hx.
+  destruct (xreachable_sim c0 c1 [(c0, c1)] (or_introl eq_refl) x Hx) as (s & Hr & Hn & Hm).
+  exists s. split; [exact Hn|]. intros m Hin Hty.
+  pose proof (mreachable_inv [(c0, c1)] (inter_family_single c0 c1 Hne) s Hr) as I.
+  rewrite <- Hm in Hin. destruct (hW9 _ _ I m Hin Hty) as (_ & H1 & H2 & _). split; assumption.
+Qed.
+Print Assumptions C15_msgapp_in_flight_is_leader_log_slice.
+
+(* the committed entries the membership-change model hands to the application in one round of the
+   Ready loop are the contiguous block applied+1 .. rdc of the node's log ([ready_iter] folds
+   apply_entry over firstn (rdc - applied) (skipn applied log) and returns rdc as the new cursor):
+   the cursor never jumps.  (The fixed-membership model has no application; there the harness
+   checks the Ready contract directly: CommittedEntries and Entries carry consecutive indexes.) *)
+Theorem C15_cc_applied_entries_contiguous : forall page1 id n c pend applied,
+  applied <= n_commit n ->
+  let '(_, c', _, applied') := ready_iter page1 id (n, c, pend, applied) in
+  applied <= applied' /\ applied' <= n_commit n /\
+  c' = snd (fold_left (apply_entry id) (firstn (applied' - applied) (skipn applied (n_log n))) (n, c)).
+Proof.
+  intros page1 id n c pend applied Ha. unfold ready_iter.
+  set (rdc := if applied <? n_commit n then (if page1 then S applied else n_commit n) else applied).
+  assert (Hr : applied <= rdc /\ rdc <= n_commit n).
+  { unfold rdc. destruct (Nat.ltb_spec applied (n_commit n)); [destruct page1; lia|lia]. }
+  destruct (fold_left (apply_entry id) (firstn (rdc - applied) (skipn applied (n_log n))) (n, c)) as [n1 c1] eqn:Ef.
+  destruct ((applied <? rdc) && c_auto c1 && (applied <=? pend) && (pend <=? rdc) && role_eqb (n_role n1) Leader);
+    cbv beta iota zeta; fold rdc; (split; [lia|split; [lia|rewrite Ef; reflexivity]]).
+Qed.
+Print Assumptions C15_cc_applied_entries_contiguous.
+
 (* ------------------------------------------------------------------ non-vacuity: a concrete
    3-node run (election of node 1 by node 2's vote, two entries replicated to node 2,
    committed on both) is reachable. *)
